@@ -66,6 +66,14 @@ def run(ctx) -> None:
     from .c02 import check_rows
 
     check_rows(ctx, RW, RW, RW, RW, RW, RW)
+    RFS = ctx.rule(
+        "C01/threads-survive-vanished-paths",
+        "every filesystem call that raises for a missing path, made on the emitter's or the reader's thread, sits inside a handler for OSError (instances shared with C07): a directory may be renamed again right after it arrived, and an OSError escaping the walk of its arrival path ends the thread -- the move or deletion that follows, and everything after it, is never delivered, so the replayed tree keeps a phantom entry",
+        floor=2,
+    )
+    from ..oserr import check as _fs_check
+
+    _fs_check(ctx, RFS, [("InotifyEmitter", "queue_events"), ("InotifyBuffer", "run")], "the events that follow are never delivered and the replayed tree diverges from the disk")
 
     rows, npaths, fi = inotify_emitter_table(P)
     ctx.count("emitter_paths", npaths)
